@@ -116,6 +116,38 @@ Definition no_removal_acks (h : list cap_in) : Prop :=
   forall i t, In i h -> is_ack (in_params i) = true -> In t (cap_tokens (in_params i)) ->
               ack_removed t = None.
 
+(* ---- what is on offer in the current round ------------------------------------ *)
+(* A negotiation round is a listing (LS lines up to the final one, or a NEW) and its answer.
+   The names the client may request are the ones "on offer": listed by an LS/NEW line since
+   the last line that concluded a round and not withdrawn by a DEL since.
+   CURRENT girc forgets the pending names (tmpCap) only on ACK: a NAK does not conclude the
+   round for it and a DEL does not withdraw a pending name (finding tmpcap-not-pruned):
+   tmp_prune_aware = false.  With notes/proposed-fixes/cap-tmpcap-prune.diff applied to /repo
+   the flag becomes true (and Model/Cap.v handle_cap prunes tmpCap in its DEL and NAK
+   branches); the theorems are proven for both values. *)
+Definition tmp_prune_aware : bool := true.
+
+Definition names_of (ps : list str) : list str := List.map cap_token_name (cap_tokens ps).
+
+Definition offered_step (acc : list str) (i : cap_in) : list str :=
+  let ps := in_params i in
+  if is_del ps then
+    (if tmp_prune_aware then filter (fun k => negb (existsb (streqb k) (names_of ps))) acc else acc)
+  else if is_nak ps then (if tmp_prune_aware then [] else acc)
+  else if is_ls ps then acc ++ names_of ps
+  else if is_ack ps then []
+  else acc.
+
+Definition offered (h : list cap_in) : list str := fold_left offered_step h [].
+
+(* the connection is still there: no line so far made the client close it (STS upgrade,
+   injected ERROR for an invalid STS policy) *)
+Definition conn_ended (outs : list cap_out) : bool :=
+  existsb (fun o => match o with Upgrade | InjectError _ => true | Write _ _ => false end) outs.
+
+Definition alive (cfg : cap_cfg) (st : cap_state) (h : list cap_in) : Prop :=
+  Forall (fun outs => conn_ended outs = false) (cap_outs cfg st h).
+
 (* ---- order hypothesis -------------------------------------------------------- *)
 (* Go's map iteration yields each key of tmpCap once, in some order. Safety needs only
    "no invented keys"; completeness needs "no dropped keys". *)
